@@ -36,6 +36,7 @@ fn main() {
             "CHECK" => modelops::run_check(&case),
             "MERGE" => modelops::run_merge(&case),
             "CLEANUP" => modelops::run_cleanup(&case),
+            "MERGESNI" => modelops::run_merge_sni(&case),
             "C12" => c12::run(&case),
             "C12M" => c12::run_multi(&case),
             "C13" => c13::run(&case),
